@@ -1,6 +1,7 @@
 """Symbolic pre-states (every state satisfying the representation invariant I, up to
 the slot bounds) and the invariant / reference-model formulas shared by the
 actor-level obligations."""
+import re
 import z3
 from values import *
 from interp import run_to_end, mk_int, bool_s
@@ -18,12 +19,16 @@ def mk(ctx, _ty, _hint='', **fields):
     if order is not None and set(fields) < set(order):
         # the source struct has fields this pre-state does not know (added since): they get the value the struct's own
         # argument-less constructor gives them (e.g. an empty cache).  Anything else is exit 2.
-        init = _constructed(ctx, name)
+        # Only flag-like fields qualify (Option<_> that starts as None, bool): "cold cache" / "not yet" is a state such a field
+        # can be in next to any value of the others.  A new collection or counter usually mirrors other fields - a default
+        # for it would describe an unreachable state - so that stays exit 2.
+        missing = [f for f in order if f not in fields]
+        flaglike = all(re.match(r'^(Option\s*<|bool\b)', ctx.src.field_type(name, f, hint) or '') for f in missing)
+        init = _constructed(ctx, name) if flaglike else None
         if init is not None:
             fields = dict(fields)
-            for f in order:
-                if f not in fields:
-                    fields[f] = init.fields[order.index(f)]
+            for f in missing:
+                fields[f] = init.fields[order.index(f)]
     if order is None or set(order) != set(fields):
         raise Unsupported('struct %s: source fields %r, given %r' % (name, order, sorted(fields)))
     return Agg(name, [fields[f] for f in order])
